@@ -242,6 +242,40 @@ pub struct WriteOutcome {
     pub bytes: Option<Vec<u8>>,
 }
 
+thread_local! {
+    /// index of the running scenario (set by the dispatcher): some decisions that must not disturb
+    /// the random stream of a scenario derive from it
+    pub static SCN_IDX: std::cell::Cell<u64> = std::cell::Cell::new(0);
+    /// whether the running family may read files written by the 0.4.7 writer (reader-side families)
+    pub static ALLOW_FOREIGN: std::cell::Cell<bool> = std::cell::Cell::new(false);
+}
+
+/// The same content written by the 0.4.7 writer with the same configuration: a valid file of the
+/// same format that the writer under test had no hand in (reader-side scenarios use it for a
+/// fraction of their files, so that a reader that only copes with its own writer's habits shows).
+/// None when 0.4.7 cannot write this configuration (framed Snappy, 255 levels, degenerate sizes).
+pub fn write_file_foreign(cfg: &Cfg, entries: &[Entry]) -> Option<Vec<u8>> {
+    if cfg.codec == 5 || cfg.levels >= 200 || cfg.interval == 0 || cfg.block_size > (1 << 30) || cfg.interval > (1 << 30) {
+        return None;
+    }
+    let interval = std::num::NonZeroUsize::new(cfg.interval)?;
+    std::panic::catch_unwind(std::panic::AssertUnwindSafe(|| {
+        let mut b = grenad_0_4::Writer::builder();
+        b.compression_type(codec04_of(cfg.codec))
+            .compression_level(cfg.level)
+            .block_size(cfg.block_size)
+            .index_key_interval(interval)
+            .index_levels(cfg.levels);
+        let mut w = b.memory();
+        for (k, v) in entries {
+            w.insert(k, v).ok()?;
+        }
+        w.into_inner().ok()
+    }))
+    .ok()
+    .flatten()
+}
+
 /// Writes the entries with the real grenad writer into a Vec<u8>; panics are data.
 pub fn write_file(cfg: &Cfg, entries: &[Entry]) -> WriteOutcome {
     // the instrumented sink follows the write schedule of the scenario (whole buffers by default)
